@@ -2,6 +2,7 @@ import CC.Lemmas.Edits
 import CC.Lemmas.Leb
 import CC.Lemmas.World
 import CC.Lemmas.Contig
+import CC.Lemmas.Rename
 /-! # C03 — access decisions stay correct across access-structure edits
 
 Rights are named by attribute *identifiers*; the theorems show that identifiers are permanent
@@ -219,6 +220,25 @@ theorem rename_keeps_access_by_name (s s' : Struct) (hS : s.WF) (hb : s.IdsBelow
         exact Look.lookup_mem h1)
       exact this
     rw [Look.mem_lookup_of_nodup hnd hmem]
+
+/-- **A renamed attribute keeps its access, at the level of names.** Rename an attribute; take a
+user key generated *before* the rename for a clause `cl` (its rights are the complementary points
+of `cl` in the old structure) and an encapsulation made *after* it for the clause `ε` written with
+the new name: one of the key's rights is the targeted right exactly when the name-level cover
+relation holds between the two clauses read with the new names in the new structure. The rename
+changed neither what the old key opens nor what the name-level relation says. -/
+theorem renamed_attribute_keeps_access (s s' : Struct) (hS : s.WF) (hb : s.IdsBelow) (dn o n : String)
+    (h : s.renameAttribute dn o n = .ok s') (cl ε : List QA)
+    (hcl : ClauseNodup cl) (hε : ClauseNodup ε)
+    (hkc : Spec.clauseKnown s cl = true) (hkε : Spec.clauseKnown s ε = true) :
+    ∃ pts eas, s.complementaryPoints cl = .ok pts ∧
+      mapMExcept s'.getAttribute (ε.map (renQA dn o n)) = .ok eas ∧
+      ((∃ p ∈ pts, Right.fromPoint p = Right.fromPoint (eas.map (·.id))) ↔
+        Spec.coversClause s' (cl.map (renQA dn o n)) (ε.map (renQA dn o n)) = true) := by
+  obtain ⟨pts, eas, hpts, heas, hiff⟩ := clause_right_iff hS hcl hε hkc hkε
+  refine ⟨pts, eas, hpts, mapM_getAttribute_rename hS hb h heas, ?_⟩
+  rw [coversClause_rename hS h hkc hkε]
+  exact hiff
 
 /-- non-vacuity: delete then add — the new attribute gets a new identifier (2), not the deleted one's (0) -/
 example : (Struct.empty.run [.addDim "D" false, .addAttr "D" "A" false none, .addAttr "D" "B" false none,
